@@ -250,88 +250,175 @@ theorem create_run (c : Content) (s : Mgr) : (create c).run s = createNode c s :
   cases h : createNode c s with
   | mk r s' => cases r <;> simp
 
-/-- `create_node` succeeds when the references are existing nodes. -/
-theorem createNode_ok (c : Content) (s : Mgr) (hv : ∀ j ∈ c.ids, 0 < j ∧ j < s.nextId) :
+/-- `create_node` succeeds when the references are existing nodes and the type checker
+    accepts the content. -/
+theorem createNode_ok (c : Content) (s : Mgr) (hv : ∀ j ∈ c.ids, 0 < j ∧ j < s.nextId) (htc : s.tc c = true) :
     ∃ i, (createNode c s).1 = .ok i := by
-  unfold createNode
-  have : c.ids.all s.validId = true := by
-    rw [List.all_eq_true]; intro j hj; exact validId_iff.mpr (hv j hj)
-  rw [if_pos this]
-  split <;> simp
+  have hu : ∃ i, (createNodeU c s).1 = .ok i := by
+    unfold createNodeU
+    have : c.ids.all s.validId = true := by
+      rw [List.all_eq_true]; intro j hj; exact validId_iff.mpr (hv j hj)
+    rw [if_pos this]
+    split <;> simp
+  obtain ⟨i, hi⟩ := hu
+  exact ⟨i, (createNode_ok_iff c s i).mpr ⟨hi, htc⟩⟩
 
 structure BuildOK (s : Mgr) (s' : Mgr) : Prop where
   inv : Inv s'
   ext : Ext s s'
 
 mutual
-  theorem buildT_spec : ∀ (t : Term), t.WF → ∀ (s : Mgr), Inv s →
-      ∃ i s', (buildT t).run s = (.ok i, s') ∧ BuildOK s s' ∧ 0 < i ∧ i < s'.nextId ∧ s'.struct i = t
-    | .node sh kids, hwf, s, hs => by
+  /-- whatever the type checker says: the state stays good, and a returned node has tree `t` -/
+  theorem buildT_cond : ∀ (t : Term), t.WF → ∀ (s : Mgr), Inv s → ∀ r s', (buildT t).run s = (r, s') →
+      BuildOK s s' ∧ ∀ i, r = .ok i → 0 < i ∧ i < s'.nextId ∧ s'.struct i = t
+    | .node sh kids, hwf, s, hs, r, s', hrun => by
       obtain ⟨hsh, hk⟩ := hwf
-      obtain ⟨ids, s1, hrun, hok, hval, hstruct⟩ := buildL_spec kids hk s hs
+      simp only [buildT] at hrun
+      rw [Prog.run_bind] at hrun
+      cases h1 : (buildL kids).run s with
+      | mk r1 s1 =>
+        have w1 := buildL_cond kids hk s hs r1 s1 h1
+        rw [h1] at hrun
+        cases r1 with
+        | error e =>
+          simp only [Prod.mk.injEq] at hrun
+          obtain ⟨rfl, rfl⟩ := hrun
+          exact ⟨w1.1, by simp⟩
+        | ok ids =>
+          simp only at hrun
+          rw [create_run] at hrun
+          obtain ⟨hval, hstruct⟩ := w1.2 ids rfl
+          have hlen : ids.length = kids.length := by rw [← hstruct]; simp
+          have hspec := Content.withIds_spec (sh := sh) (ids := ids) (hlen ▸ hsh)
+          have hc := createNode_spec (sh.withIds ids) s1 w1.1.inv
+          rw [hrun] at hc
+          obtain ⟨hi2, he2, hmem, _⟩ := hc
+          refine ⟨⟨hi2, w1.1.ext.trans he2⟩, fun i hi => ?_⟩
+          have hm := hmem i hi
+          refine ⟨(hi2.range _ _ hm).1, (hi2.range _ _ hm).2, ?_⟩
+          rw [struct_eq hi2 hm, hspec.1, hspec.2]
+          congr 1
+          rw [← hstruct]
+          apply List.map_congr_left
+          intro j hj
+          have := hval j hj
+          exact struct_stable w1.1.inv hi2 he2 (j + 1) j (by omega) this.1 this.2
+  theorem buildL_cond : ∀ (ts : List Term), Term.WFL ts → ∀ (s : Mgr), Inv s → ∀ r s', (buildL ts).run s = (r, s') →
+      BuildOK s s' ∧ ∀ is, r = .ok is → (∀ i ∈ is, 0 < i ∧ i < s'.nextId) ∧ is.map s'.struct = ts
+    | [], _, s, hs, r, s', hrun => by
+      simp only [buildL, Prog.run, Prod.mk.injEq] at hrun
+      obtain ⟨rfl, rfl⟩ := hrun
+      exact ⟨⟨hs, Ext.refl s⟩, fun is h => by cases h; simp⟩
+    | t :: ts, hwf, s, hs, r, s', hrun => by
+      obtain ⟨ht, hts⟩ := hwf
+      simp only [buildL] at hrun
+      rw [Prog.run_bind] at hrun
+      cases h1 : (buildT t).run s with
+      | mk r1 s1 =>
+        have w1 := buildT_cond t ht s hs r1 s1 h1
+        rw [h1] at hrun
+        cases r1 with
+        | error e =>
+          simp only [Prod.mk.injEq] at hrun
+          obtain ⟨rfl, rfl⟩ := hrun
+          exact ⟨w1.1, by simp⟩
+        | ok i =>
+          simp only at hrun
+          rw [Prog.run_bind] at hrun
+          obtain ⟨i0, i1, hst1⟩ := w1.2 i rfl
+          cases h2 : (buildL ts).run s1 with
+          | mk r2 s2 =>
+            have w2 := buildL_cond ts hts s1 w1.1.inv r2 s2 h2
+            rw [h2] at hrun
+            cases r2 with
+            | error e =>
+              simp only [Prod.mk.injEq] at hrun
+              obtain ⟨rfl, rfl⟩ := hrun
+              exact ⟨⟨w2.1.inv, w1.1.ext.trans w2.1.ext⟩, by simp⟩
+            | ok is =>
+              simp only [Prog.run, Prod.mk.injEq] at hrun
+              obtain ⟨rfl, rfl⟩ := hrun
+              obtain ⟨hval2, hst2⟩ := w2.2 is rfl
+              refine ⟨⟨w2.1.inv, w1.1.ext.trans w2.1.ext⟩, fun js hjs => ?_⟩
+              cases hjs
+              refine ⟨?_, ?_⟩
+              · intro j hj
+                rcases List.mem_cons.mp hj with rfl | hj
+                · exact ⟨i0, Nat.lt_of_lt_of_le i1 w2.1.ext.next⟩
+                · exact hval2 j hj
+              · simp only [List.map_cons, List.cons.injEq]
+                refine ⟨?_, hst2⟩
+                rw [struct_stable w1.1.inv w2.1.inv w2.1.ext (i + 1) i (by omega) i0 i1, hst1]
+end
+
+/-- the type checker of `s` accepts every content (the unchecked / well-sorted reading) -/
+def AcceptsAll (s : Mgr) : Prop := ∀ c, s.tc c = true
+
+theorem AcceptsAll.run {α : Type} {s : Mgr} (h : AcceptsAll s) (p : Prog α) : AcceptsAll (p.run s).2 := by
+  intro c; rw [Prog.run_tc]; exact h c
+
+mutual
+  /-- with an all-accepting type checker the build never fails -/
+  theorem buildT_ok : ∀ (t : Term), t.WF → ∀ (s : Mgr), Inv s → AcceptsAll s → ∃ i s', (buildT t).run s = (.ok i, s')
+    | .node sh kids, hwf, s, hs, ha => by
+      obtain ⟨hsh, hk⟩ := hwf
+      obtain ⟨ids, s1, hrun⟩ := buildL_ok kids hk s hs ha
+      have w1 := buildL_cond kids hk s hs _ _ hrun
+      obtain ⟨hval, hstruct⟩ := w1.2 ids rfl
       have hlen : ids.length = kids.length := by rw [← hstruct]; simp
       have hspec := Content.withIds_spec (sh := sh) (ids := ids) (hlen ▸ hsh)
-      have hvalid : ∀ j ∈ (sh.withIds ids).ids, 0 < j ∧ j < s1.nextId := by
-        rw [hspec.2]; exact hval
-      obtain ⟨i, hi⟩ := createNode_ok _ s1 hvalid
-      have hc := createNode_spec (sh.withIds ids) s1 hok.inv
-      generalize hr : createNode (sh.withIds ids) s1 = r at hc hi
-      obtain ⟨r1, s2⟩ := r
-      simp only at hi
-      subst hi
-      obtain ⟨hi2, he2, hmem, _⟩ := hc
-      have hm := hmem i rfl
-      refine ⟨i, s2, ?_, ⟨hi2, hok.ext.trans he2⟩, (hi2.range _ _ hm).1, (hi2.range _ _ hm).2, ?_⟩
-      · simp only [buildT]
-        rw [Prog.run_bind, hrun]
-        simp only
-        rw [create_run, hr]
-      · rw [struct_eq hi2 hm, hspec.1, hspec.2]
-        congr 1
-        rw [← hstruct]
-        apply List.map_congr_left
-        intro j hj
-        have := hval j hj
-        exact struct_stable hok.inv hi2 he2 (j + 1) j (by omega) this.1 this.2
-  theorem buildL_spec : ∀ (ts : List Term), Term.WFL ts → ∀ (s : Mgr), Inv s →
-      ∃ is s', (buildL ts).run s = (.ok is, s') ∧ BuildOK s s' ∧
-        (∀ i ∈ is, 0 < i ∧ i < s'.nextId) ∧ is.map s'.struct = ts
-    | [], _, s, hs => ⟨[], s, by simp [buildL, Prog.run], ⟨hs, Ext.refl s⟩, by simp, by simp⟩
-    | t :: ts, hwf, s, hs => by
+      have ha1 : AcceptsAll s1 := by have := ha.run (buildL kids); rw [hrun] at this; exact this
+      obtain ⟨i, hi⟩ := createNode_ok (sh.withIds ids) s1 (by rw [hspec.2]; exact hval) (ha1 _)
+      refine ⟨i, (createNode (sh.withIds ids) s1).2, ?_⟩
+      simp only [buildT]
+      rw [Prog.run_bind, hrun]
+      simp only
+      rw [create_run, ← hi]
+  theorem buildL_ok : ∀ (ts : List Term), Term.WFL ts → ∀ (s : Mgr), Inv s → AcceptsAll s →
+      ∃ is s', (buildL ts).run s = (.ok is, s')
+    | [], _, s, _, _ => ⟨[], s, by simp [buildL, Prog.run]⟩
+    | t :: ts, hwf, s, hs, ha => by
       obtain ⟨ht, hts⟩ := hwf
-      obtain ⟨i, s1, hrun1, hok1, i0, i1, hst1⟩ := buildT_spec t ht s hs
-      obtain ⟨is, s2, hrun2, hok2, hval2, hst2⟩ := buildL_spec ts hts s1 hok1.inv
-      refine ⟨i :: is, s2, ?_, ⟨hok2.inv, hok1.ext.trans hok2.ext⟩, ?_, ?_⟩
-      · simp only [buildL]
-        rw [Prog.run_bind, hrun1]
-        simp only
-        rw [Prog.run_bind, hrun2]
-        simp [Prog.run]
-      · intro j hj
-        rcases List.mem_cons.mp hj with rfl | hj
-        · exact ⟨i0, Nat.lt_of_lt_of_le i1 hok2.ext.next⟩
-        · exact hval2 j hj
-      · simp only [List.map_cons, List.cons.injEq]
-        refine ⟨?_, hst2⟩
-        rw [struct_stable hok1.inv hok2.inv hok2.ext (i + 1) i (by omega) i0 i1, hst1]
+      obtain ⟨i, s1, hr1⟩ := buildT_ok t ht s hs ha
+      have w1 := buildT_cond t ht s hs _ _ hr1
+      have ha1 : AcceptsAll s1 := by have := ha.run (buildT t); rw [hr1] at this; exact this
+      obtain ⟨is, s2, hr2⟩ := buildL_ok ts hts s1 w1.1.inv ha1
+      refine ⟨i :: is, s2, ?_⟩
+      simp only [buildL]
+      rw [Prog.run_bind, hr1]
+      simp only
+      rw [Prog.run_bind, hr2]
+      simp [Prog.run]
 end
 
 /-- **Hash-consing, both directions, for arbitrary histories.**  Build tree `t₁`, run any
-    program `p` (unrelated constructions, failing or not), build tree `t₂`: the two results are
-    the same node exactly when the trees are equal. -/
+    program `p` (unrelated constructions, failing or not), build tree `t₂`: whenever both builds
+    return a node, the two results are the same node exactly when the trees are equal —
+    whatever the type checker accepts or rejects on the way. -/
 theorem build_same_iff {α : Type} {s₀ : Mgr} (h₀ : Reachable s₀) (t₁ t₂ : Term) (w₁ : t₁.WF) (w₂ : t₂.WF)
-    (p : Prog α) :
-    ∃ i₁ s₁ i₂ s₃, (buildT t₁).run s₀ = (.ok i₁, s₁) ∧ (buildT t₂).run (p.run s₁).2 = (.ok i₂, s₃) ∧
-      (i₁ = i₂ ↔ t₁ = t₂) := by
-  obtain ⟨i₁, s₁, hr1, ok1, a0, a1, st1⟩ := buildT_spec t₁ w₁ s₀ h₀.inv
+    (p : Prog α) {i₁ i₂ : Nid} {s₁ s₃ : Mgr} (hr1 : (buildT t₁).run s₀ = (.ok i₁, s₁))
+    (hr2 : (buildT t₂).run (p.run s₁).2 = (.ok i₂, s₃)) : i₁ = i₂ ↔ t₁ = t₂ := by
+  obtain ⟨ok1, h1⟩ := buildT_cond t₁ w₁ s₀ h₀.inv _ _ hr1
+  obtain ⟨a0, a1, st1⟩ := h1 i₁ rfl
   have hp := Prog.run_spec p s₁ ok1.inv
-  obtain ⟨i₂, s₃, hr2, ok2, b0, b1, st2⟩ := buildT_spec t₂ w₂ (p.run s₁).2 hp.1
-  refine ⟨i₁, s₁, i₂, s₃, hr1, hr2, ?_⟩
+  obtain ⟨ok2, h2⟩ := buildT_cond t₂ w₂ (p.run s₁).2 hp.1 _ _ hr2
+  obtain ⟨b0, b1, st2⟩ := h2 i₂ rfl
   have he : Ext s₁ s₃ := hp.2.trans ok2.ext
   have a1' : i₁ < s₃.nextId := Nat.lt_of_lt_of_le a1 he.next
   have st1' : s₃.struct i₁ = t₁ := by
     rw [struct_stable ok1.inv ok2.inv he (i₁ + 1) i₁ (by omega) a0 a1, st1]
   rw [← struct_eq_iff ok2.inv a0 a1' b0 b1, st1', st2]
+
+/-- … and with an all-accepting type checker both builds do return. -/
+theorem build_succeeds {α : Type} {s₀ : Mgr} (h₀ : Reachable s₀) (ha : AcceptsAll s₀) (t₁ t₂ : Term)
+    (w₁ : t₁.WF) (w₂ : t₂.WF) (p : Prog α) :
+    ∃ i₁ s₁ i₂ s₃, (buildT t₁).run s₀ = (.ok i₁, s₁) ∧ (buildT t₂).run (p.run s₁).2 = (.ok i₂, s₃) := by
+  obtain ⟨i₁, s₁, hr1⟩ := buildT_ok t₁ w₁ s₀ h₀.inv ha
+  have ok1 := (buildT_cond t₁ w₁ s₀ h₀.inv _ _ hr1).1
+  have ha1 : AcceptsAll s₁ := by have := ha.run (buildT t₁); rw [hr1] at this; exact this
+  have hp := Prog.run_spec p s₁ ok1.inv
+  obtain ⟨i₂, s₃, hr2⟩ := buildT_ok t₂ w₂ (p.run s₁).2 hp.1 (ha1.run p)
+  exact ⟨i₁, s₁, i₂, s₃, hr1, hr2⟩
 
 theorem Term.WFL_map {f : Nid → Term} : ∀ (l : List Nid), (∀ j ∈ l, (f j).WF) → Term.WFL (l.map f)
   | [], _ => by simp [Term.WFL]
@@ -356,14 +443,15 @@ theorem struct_WF {s : Mgr} (hs : Inv s) :
     have := hs.closed c i hc j hj
     exact ih j (by omega) this.1 (by omega)
 
-/-- Re-creating the tree of an existing node with `create_node` returns that very node. -/
-theorem rebuild_raw_id {s : Mgr} (hs : Inv s) {i : Nid} (h0 : 0 < i) (h1 : i < s.nextId) :
-    ∃ s', (buildT (s.struct i)).run s = (.ok i, s') := by
-  obtain ⟨j, s', hrun, ok, j0, j1, hst⟩ := buildT_spec (s.struct i) (struct_WF hs (i + 1) i (by omega) h0 h1) s hs
+/-- Re-creating the tree of an existing node with `create_node`: whenever it returns, it
+    returns that very node. -/
+theorem rebuild_raw_id {s : Mgr} (hs : Inv s) {i : Nid} (h0 : 0 < i) (h1 : i < s.nextId) {j : Nid} {s' : Mgr}
+    (hrun : (buildT (s.struct i)).run s = (.ok j, s')) : j = i := by
+  obtain ⟨ok, h⟩ := buildT_cond (s.struct i) (struct_WF hs (i + 1) i (by omega) h0 h1) s hs _ _ hrun
+  obtain ⟨j0, j1, hst⟩ := h j rfl
   have i1' : i < s'.nextId := Nat.lt_of_lt_of_le h1 ok.ext.next
   have : s'.struct j = s'.struct i := by
     rw [hst, struct_stable hs ok.inv ok.ext (i + 1) i (by omega) h0 h1]
-  have hji := (struct_eq_iff ok.inv j0 j1 h0 i1').mp this
-  exact ⟨s', hji ▸ hrun⟩
+  exact (struct_eq_iff ok.inv j0 j1 h0 i1').mp this
 
 end PySMT.Manager
